@@ -110,12 +110,17 @@ pub(crate) async fn connect(d: &Daemon, from: IpAddr, role: crate::fsm::Role) ->
         IpAddr::V6(_) => tokio::net::TcpSocket::new_v6(),
     }
     .map_err(|e| e.to_string())?;
+    // thousands of short sessions from one source address: do not let TIME_WAIT eat the port range
+    let _ = sock.set_reuseaddr(true);
     sock.bind(SocketAddr::new(from, 0)).map_err(|e| format!("bind client {from}: {e}"))?;
     let (client, server) = tokio::join!(sock.connect(laddr), listener.accept());
     let client = client.map_err(|e| format!("connect: {e}"))?;
     let (server, _) = server.map_err(|e| format!("accept: {e}"))?;
     let _ = client.set_nodelay(true);
     let _ = server.set_nodelay(true);
+    // close with RST (no TIME_WAIT on the harness side); the daemon sees an I/O drop either way
+    #[allow(deprecated)]
+    let _ = client.set_linger(Some(Duration::from_secs(0)));
     let Some(session) = accept_connection(&d.global, &d.tables, server, role).await else {
         return Ok(None);
     };
